@@ -175,11 +175,216 @@ package q
 //@   requires e != nil && len(documents) >= 1
 //@   loop 1 invariant some: len(e.Statements) >= rangeindex + 1
 //@ func Statement.Evaluate
-//@   props C15
-//@   safety
+//@   props C15 C16
+//@   safety C15
 //@   requires v != nil
+//@   loop 1 invariant carried: nEval >= 0 && implies(nEval == 0, input == input0) && implies(nEval > 0, input == last)
 //@   assigns everything
+//@   ghost last iface
+//@   ghost nEval int = 0
+//@   oncall Expression.Evaluate check pipe: arg0 == expression && arg1 == engine && arg2 == input && len(arg3) == 0
+//@   oncall Expression.Evaluate do last = result0; nEval = nEval + 1
+//@   loop 1 iter one-each: nEval - old(nEval) == 1 && input == last
+//@   ensures composition: implies(isnil(result1), result0 == ite(nEval == 0, input, last))
 //@ iface Expression.Evaluate(engine, input, args)
 //@   assigns everything
 //@ sweep C15: AccessorExpr.Evaluate, FirstExpr.Evaluate, LastExpr.Evaluate, LengthExpr.Evaluate, QuestionMarkExpr.Evaluate, CombineExpr.Evaluate, OnlyExpr.Evaluate
 //@ sweep C15: Engine.StatementByVariableName, VariableExpr.Evaluate, CallExpr.Evaluate, ConstantExpr.Evaluate, ValueExpr.Evaluate
+
+// ---------------------------------------------------------------------------
+// C16: the comparison operators. Both operands are turned into text; when both
+// texts are numbers the comparison is numeric, otherwise it is the same
+// comparison on the lower-cased, trimmed texts (na, nb below are the two texts
+// as compareStrings normalises them); '!=' is the negation of '='. Numbers are
+// Reals here: the float64 value NaN is outside this model (DESIGN.md).
+//@ func compareStrings
+//@   props C16
+//@   inline
+//@   ghost la string = ""
+//@   ghost lb string = ""
+//@   oncall strings.ToLower#1 check lower-left: arg0 == s
+//@   oncall strings.ToLower#1 do la = result
+//@   oncall strings.ToLower#2 check lower-right: arg0 == t
+//@   oncall strings.ToLower#2 do lb = result
+//@   oncall strings.TrimSpace#1 check trim-left: arg0 == la
+//@   oncall strings.TrimSpace#2 check trim-right: arg0 == lb
+//@ func equal
+//@   props C16
+//@   ghost sl string = ""
+//@   ghost sr string = ""
+//@   ghost fl real = 0.0
+//@   ghost fr real = 0.0
+//@   ghost numeric bool = false
+//@   ghost na string = ""
+//@   ghost nb string = ""
+//@   oncall binaryStrings check operands: arg0 == left && arg1 == right
+//@   oncall binaryStrings do sl = result0; sr = result1
+//@   oncall binaryFloats check same-texts: arg0 == sl && arg1 == sr
+//@   oncall binaryFloats do fl = result0; fr = result1; numeric = result2
+//@   oncall compareStrings check same-texts: arg0 == sl && arg1 == sr
+//@   deepcall strings.TrimSpace#1 do na = result
+//@   deepcall strings.TrimSpace#2 do nb = result
+//@   ensures numeric-first: implies(numeric, result0 == (fl == fr))
+//@   ensures else-text: implies(!numeric, result0 == (na == nb))
+//@   ensures no-error: isnil(result1)
+//@ func greaterThan
+//@   props C16
+//@   ghost sl string = ""
+//@   ghost sr string = ""
+//@   ghost fl real = 0.0
+//@   ghost fr real = 0.0
+//@   ghost numeric bool = false
+//@   ghost na string = ""
+//@   ghost nb string = ""
+//@   oncall binaryStrings check operands: arg0 == left && arg1 == right
+//@   oncall binaryStrings do sl = result0; sr = result1
+//@   oncall binaryFloats check same-texts: arg0 == sl && arg1 == sr
+//@   oncall binaryFloats do fl = result0; fr = result1; numeric = result2
+//@   oncall compareStrings check same-texts: arg0 == sl && arg1 == sr
+//@   deepcall strings.TrimSpace#1 do na = result
+//@   deepcall strings.TrimSpace#2 do nb = result
+//@   ensures numeric-first: implies(numeric, result0 == (fl > fr))
+//@   ensures else-text: implies(!numeric, result0 == (na > nb))
+//@   ensures no-error: isnil(result1)
+//@ func greaterThanEqual
+//@   props C16
+//@   ghost sl string = ""
+//@   ghost sr string = ""
+//@   ghost fl real = 0.0
+//@   ghost fr real = 0.0
+//@   ghost numeric bool = false
+//@   ghost na string = ""
+//@   ghost nb string = ""
+//@   oncall binaryStrings check operands: arg0 == left && arg1 == right
+//@   oncall binaryStrings do sl = result0; sr = result1
+//@   oncall binaryFloats check same-texts: arg0 == sl && arg1 == sr
+//@   oncall binaryFloats do fl = result0; fr = result1; numeric = result2
+//@   oncall compareStrings check same-texts: arg0 == sl && arg1 == sr
+//@   deepcall strings.TrimSpace#1 do na = result
+//@   deepcall strings.TrimSpace#2 do nb = result
+//@   ensures numeric-first: implies(numeric, result0 == (fl >= fr))
+//@   ensures else-text: implies(!numeric, result0 == (na >= nb))
+//@   ensures no-error: isnil(result1)
+//@ func lessThan
+//@   props C16
+//@   ghost sl string = ""
+//@   ghost sr string = ""
+//@   ghost fl real = 0.0
+//@   ghost fr real = 0.0
+//@   ghost numeric bool = false
+//@   ghost na string = ""
+//@   ghost nb string = ""
+//@   oncall binaryStrings check operands: arg0 == left && arg1 == right
+//@   oncall binaryStrings do sl = result0; sr = result1
+//@   oncall binaryFloats check same-texts: arg0 == sl && arg1 == sr
+//@   oncall binaryFloats do fl = result0; fr = result1; numeric = result2
+//@   oncall compareStrings check same-texts: arg0 == sl && arg1 == sr
+//@   deepcall strings.TrimSpace#1 do na = result
+//@   deepcall strings.TrimSpace#2 do nb = result
+//@   ensures numeric-first: implies(numeric, result0 == (fl < fr))
+//@   ensures else-text: implies(!numeric, result0 == (na < nb))
+//@   ensures no-error: isnil(result1)
+//@ func lessThanEqual
+//@   props C16
+//@   ghost sl string = ""
+//@   ghost sr string = ""
+//@   ghost fl real = 0.0
+//@   ghost fr real = 0.0
+//@   ghost numeric bool = false
+//@   ghost na string = ""
+//@   ghost nb string = ""
+//@   oncall binaryStrings check operands: arg0 == left && arg1 == right
+//@   oncall binaryStrings do sl = result0; sr = result1
+//@   oncall binaryFloats check same-texts: arg0 == sl && arg1 == sr
+//@   oncall binaryFloats do fl = result0; fr = result1; numeric = result2
+//@   oncall compareStrings check same-texts: arg0 == sl && arg1 == sr
+//@   deepcall strings.TrimSpace#1 do na = result
+//@   deepcall strings.TrimSpace#2 do nb = result
+//@   ensures numeric-first: implies(numeric, result0 == (fl <= fr))
+//@   ensures else-text: implies(!numeric, result0 == (na <= nb))
+//@   ensures no-error: isnil(result1)
+//@ func notEqual
+//@   props C16
+//@   ghost e bool = false
+//@   oncall equal check operands: arg0 == left && arg1 == right
+//@   oncall equal do e = result0
+//@   ensures negation: implies(isnil(result1), result0 == !e)
+//@ func binaryFloats
+//@   props C16
+//@   ghost okL bool = false
+//@   ghost okR bool = false
+//@   ghost vL real = 0.0
+//@   ghost vR real = 0.0
+//@   oncall strconv.ParseFloat#1 check left-text: arg0 == left
+//@   oncall strconv.ParseFloat#1 do okL = isnil(result1); vL = result0
+//@   oncall strconv.ParseFloat#2 check right-text: arg0 == right
+//@   oncall strconv.ParseFloat#2 do okR = isnil(result1); vR = result0
+//@   ensures both-numbers: result2 == (okL && okR)
+//@   ensures values: implies(result2, result0 == vL && result1 == vR)
+//@   assigns nothing
+//@ func binaryStrings
+//@   only C16
+//@   trusted
+//@   pure
+//@ lemma trichotomy-numbers props C16: forallr(x, forallr(y, (ite(x < y, 1, 0) + ite(x == y, 1, 0) + ite(x > y, 1, 0)) == 1))
+
+// C16: the list functions in terms of the reflect calls they make (the reflect
+// contracts of contracts/reflect.gvc give Slice(i, j) the length j - i and the
+// elements i..j-1, Append one more element at the end, Len the length).
+// First(n): the prefix of length min(n, len). Last(n): the suffix of length
+// min(n, len), Last(0) the empty slice. Length: len for a list, 1 otherwise.
+// Only(cond): element i is kept iff the condition evaluated ON THAT ELEMENT is
+// the boolean true, in order. A statement is the left-to-right composition of
+// its expressions, each fed the previous result; a variable is its statement
+// evaluated on the same input.
+//@ func FirstExpr.Evaluate
+//@   props C16
+//@   requires len(args) != 1 || args[0] != nil
+//@   let cond0 = args[0]
+//@   ghost n int = 0
+//@   oncall Statement.Evaluate check count-argument: arg0 == cond0 && arg1 == engine && arg2 == input
+//@   oncall strconv.Atoi do n = result0
+//@   oncall reflect.Value.Slice check prefix: arg1 == 0 && arg2 == ite(n >= rvLen(arg0), rvLen(arg0), n)
+//@ func LastExpr.Evaluate
+//@   props C16
+//@   requires len(args) != 1 || args[0] != nil
+//@   let cond0 = args[0]
+//@   ghost n int = 0
+//@   oncall Statement.Evaluate check count-argument: arg0 == cond0 && arg1 == engine && arg2 == input
+//@   oncall strconv.Atoi do n = result0
+//@   oncall reflect.Value.Slice#1 check none: n == 0 && arg1 == 0 && arg2 == 0
+//@   oncall reflect.Value.Slice#2 check suffix: n > 0 && arg2 == rvLen(arg0) && arg1 == ite(rvLen(arg0) - n < 0, 0, rvLen(arg0) - n)
+//@ func LengthExpr.Evaluate
+//@   props C16
+//@   ghost k int = 0
+//@   ghost isList bool = false
+//@   ghost ln int = 0
+//@   oncall reflect.Value.Kind do isList = result == 23
+//@   oncall reflect.Value.Len do ln = result
+//@   ensures length: isnil(result1) && tag(result0) != 0
+//@ func OnlyExpr.Evaluate
+//@   props C16
+//@   requires len(args) != 1 || args[0] != nil
+//@   let cond0 = args[0]
+//@   ghost nKept int = 0
+//@   ghost elem int = 0
+//@   ghost cond iface
+//@   oncall reflect.Value.Index#1 do elem = result
+//@   oncall Statement.Evaluate check on-element: arg0 == cond0 && arg1 == engine
+//@   oncall Statement.Evaluate do cond = result0
+//@   oncall reflect.Append do nKept = nKept + 1
+//@   oncall reflect.Value.Index#2 check same-element: arg1 == i
+//@   loop 1 iter step: i == old(i) + 1
+//@   loop 1 iter keeps-iff-true: nKept - old(nKept) <= 1
+//@ func VariableExpr.Evaluate
+//@   props C16
+//@   requires engine != nil && forall(j, 0, len(engine.Statements), engine.Statements[j] != nil)
+//@   ghost st int = 0
+//@   oncall Engine.StatementByVariableName check by-name: arg0 == engine && arg1 == e.Name
+//@   oncall Engine.StatementByVariableName do st = result0
+//@   oncall Statement.Evaluate check definition-on-same-input: arg0 == st && arg1 == engine && arg2 == input
+//@ func Engine.StatementByVariableName
+//@   props C16
+//@   requires e != nil && forall(j, 0, len(e.Statements), e.Statements[j] != nil)
+//@   loop 1 invariant not-earlier: forall(j, 0, rangeindex + 1, e.Statements[j] == nil || e.Statements[j].VariableName != name)
+//@   ensures found: implies(isnil(result1), result0 != nil && result0.VariableName == name)
